@@ -608,6 +608,51 @@ func ruleSibling9(c *Ctx) {
 		mut := len(c.fieldsAssigned(fd.Body, recvObj(c, fd))) > 0
 		c.R.Check(shares && !mut, pk+".Env.Inherit", "returns a copy sharing ctx and fnTbl", fd.Pos(),
 			"receiver not written; copy shares the binding and function tables", "Inherit writes its receiver or does not carry ctx/fnTbl over (caller-owned environments must stay reusable)")
+		// the environment that was checked is the environment that runs: envCheck resolves names in the caller's env with
+		// Get (innermost level first), the compiled code resolves them in env.Inherit(engine). The two agree because every
+		// result of Inherit *is* the receiver's own level (its very tables) on top of the engine's, and the receiver has no
+		// other level: every returned literal takes ctx and fnTbl from the receiver, under the assertion parent == nil.
+		// A result assembled from several levels has to reproduce Get's shadowing order, which nothing here checks.
+		recv := recvObj(c, fd)
+		okEvery, n := true, 0
+		for _, r := range returnsOf(fd.Body) {
+			if len(r.Results) != 1 {
+				okEvery = false
+				continue
+			}
+			n++
+			e := unparen(r.Results[0])
+			if u, ok := e.(*ast.UnaryExpr); ok && u.Op == token.AND {
+				e = unparen(u.X)
+			}
+			cl, ok := e.(*ast.CompositeLit)
+			if !ok {
+				okEvery = false
+				continue
+			}
+			own := 0
+			for _, el := range cl.Elts {
+				if kv, ok := el.(*ast.KeyValueExpr); ok {
+					el = kv.Value
+				}
+				if se, ok := unparen(el).(*ast.SelectorExpr); ok && c.objOf(se.X) == recv && (se.Sel.Name == "ctx" || se.Sel.Name == "fnTbl") {
+					own++
+				}
+			}
+			if own != 2 {
+				okEvery = false
+			}
+		}
+		asserted := false
+		for _, a := range c.asserted(fd.Body) {
+			if be, ok := unparen(a.cond).(*ast.BinaryExpr); ok && be.Op == token.EQL {
+				if se, ok := unparen(be.X).(*ast.SelectorExpr); ok && c.objOf(se.X) == recv && se.Sel.Name == "parent" && src(be.Y) == "nil" {
+					asserted = true
+				}
+			}
+		}
+		c.R.Check(okEvery && n > 0 && asserted, pk+".Env.Inherit", "every result is the receiver's own single level", fd.Pos(),
+			"asserts parent == nil; each returned Env takes ctx and fnTbl from the receiver", "a result of Inherit is not the receiver's own level (or the receiver may have further levels): names can resolve differently in the environment that runs than in the one envCheck verified (an outer binding of another type shadowing the checked inner one)")
 	}
 }
 
